@@ -12,10 +12,17 @@ def set_profile(ex, st, R, n, nb, tag):
     return vs
 
 CUT_ON = Fraction(f32(3e11))
+def do_ops(ex, st, R, op, cutoff):
+    """every path of one call (a call that decides on the data forks)"""
+    if op == 'c': r = run_paths(ex, st, 'e_csr', [R['field'], cutoff])
+    elif op == 'C': r = run_paths(ex, st, 'e_csr', [R['field'], Fraction(0) if cutoff else CUT_ON])      # an earlier CSR computation with the other cutoff setting
+    else: r = run_paths(ex, st, OPS[op], [R['field']])
+    for x in r: x.frames = []
+    return r
 def do_op(ex, st, R, op, cutoff):
-    if op == 'c': return ex.run1(st, 'e_csr', [R['field'], cutoff])
-    if op == 'C': return ex.run1(st, 'e_csr', [R['field'], Fraction(0) if cutoff else CUT_ON])      # an earlier CSR computation with the other cutoff setting
-    return ex.run1(st, OPS[op], [R['field']])
+    r = do_ops(ex, st, R, op, cutoff)
+    if len(r) != 1: raise Unsupported('%s: expected one path, got %d' % (OPS[op], len(r)))
+    return r[0]
 
 def observe(ex, st, R, op, n, nb, N):
     if op == 'w':
@@ -36,24 +43,33 @@ def job_history(res, n, N, spacing, buckets, maxlen, cutoff_on):
     AP = {k: 3e-5 for k in ('wake', 'csr', 'csrpower', 'wake2', 'wpm_force')}
     validate(res, mod, snap, pre, {'fftwf_execute': fft_concrete(plans)}, approx=AP)
     cutoff = Fraction(f32(3e11)) if cutoff_on else Fraction(0)
+    # reference: a fresh object on the current profile - every path of the query, each with its own result
     fresh = {}
     for q in 'wpc':
         fft = UFFFT(plans); ex = Exec(mod, snap, RealDom(), {'fftwf_execute': fft}); st = State()
         set_profile(ex, st, R, n, nb, 'cur')
-        st = do_op(ex, st, R, q, cutoff); fresh[q] = observe(ex, st, R, q, n, nb, N); account(res, ex, mod, [st])
+        fresh[q] = [(s1.pc, observe(ex, s1, R, q, n, nb, N)) for s1 in do_ops(ex, st, R, q, cutoff)]
+        account(res, ex, mod, [])
     hist = [h for L in range(1, maxlen + 1) for h in itertools.product('wpcC', repeat=L)]
     for h in hist:
-        fft = UFFFT(plans); ex = Exec(mod, snap, RealDom(), {'fftwf_execute': fft}); st = State()
+        fft = UFFFT(plans); ex = Exec(mod, snap, RealDom(), {'fftwf_execute': fft}); states = [State()]
         for j, op in enumerate(h):
-            set_profile(ex, st, R, n, nb, 'old%d' % j); st = do_op(ex, st, R, op, cutoff)
+            nxt = []
+            for st in states:
+                set_profile(ex, st, R, n, nb, 'old%d' % j); nxt += do_ops(ex, st, R, op, cutoff)
+            states = nxt
         for q in 'wpc':
-            s2 = st.fork(); s2.frames = []
-            cur = set_profile(ex, s2, R, n, nb, 'cur')
-            s2 = do_op(ex, s2, R, q, cutoff); got = observe(ex, s2, R, q, n, nb, N); account(res, ex, mod, [s2])
-            def cex(m, h=h, q=q): return {'replay': 'history', 'n': n, 'N': N, 'spacing': spacing, 'buckets': list(buckets), 'history': list(h), 'query': q, 'cutoff': float(cutoff), 'cutoff2': 0.0 if cutoff else float(CUT_ON),
-                                            'profiles': [[(mval(m, z3.Real('old%d_%d' % (j, i))) or 0.0) for i in range(nb * n)] for j in range(len(h))], 'cur': [mval(m, v) for v in cur]}
-            prove(res, 'n=%d N=%d buckets %s spacing %d: after history %s the result of %s for the current profile == that of a fresh object (%d cells)' % (n, N, list(buckets), spacing, ''.join(h), OPS[q], len(got)),
-                  s2.pc, z3.Or(*[a != b for a, b in zip(got, fresh[q])]), key='history-%s-then-%s' % (h[-1], q), cex_fn=cex)
+            for st in states:
+                s2 = st.fork(); s2.frames = []
+                cur = set_profile(ex, s2, R, n, nb, 'cur')
+                for s3 in do_ops(ex, s2, R, q, cutoff):
+                    got = observe(ex, s3, R, q, n, nb, N); account(res, ex, mod, [s3])
+                    def cex(m, h=h, q=q): return {'replay': 'history', 'n': n, 'N': N, 'spacing': spacing, 'buckets': list(buckets), 'history': list(h), 'query': q, 'cutoff': float(cutoff), 'cutoff2': 0.0 if cutoff else float(CUT_ON),
+                                                    'profiles': [[(mval(m, z3.Real('old%d_%d' % (j, i))) or 0.0) for i in range(nb * n)] for j in range(len(h))], 'cur': [mval(m, v) for v in cur]}
+                    # the fresh object's result on the same current profile: the reference path whose condition the current profile satisfies
+                    differs = z3.Or(*[z3.And(z3.And(*fpc) if fpc else z3.BoolVal(True), z3.Or(*[a != b for a, b in zip(got, fgot)])) for fpc, fgot in fresh[q]])
+                    prove(res, 'n=%d N=%d buckets %s spacing %d: after history %s the result of %s for the current profile == that of a fresh object (%d cells)' % (n, N, list(buckets), spacing, ''.join(h), OPS[q], len(got)),
+                          s3.pc, differs, key='history-%s-then-%s' % (h[-1], q), cex_fn=cex)
     # witness: the result does depend on the current profile
     fft = UFFFT(plans); ex = Exec(mod, snap, RealDom(), {'fftwf_execute': fft}); st = State(); cur = set_profile(ex, st, R, n, nb, 'cur')
     st = do_op(ex, st, R, 'w', cutoff); w = observe(ex, st, R, 'w', n, nb, N)
@@ -65,7 +81,7 @@ def replayer(bld):
         base = {'n': n, 'N': N, 'spacing': c['spacing'], 'buckets': c['buckets'], 'cutoff': c.get('cutoff', 0.0), 'cutoff2': c.get('cutoff2', 0.0)}
         # concrete profiles: model values may be 0 everywhere except a few cells; make the old profiles clearly different from the current one
         import random as _r; rr = _r.Random(5)
-        olds = [[float(v) if v else rr.uniform(0.1, 1.0) for v in p] for p in c['profiles']]; cur = [float(v) if v else rr.uniform(0.1, 1.0) for v in c['cur']]
+        olds = [[float(v) if v else rr.uniform(0.1, 1.0) for v in p] for p in c['profiles']]; cur = [float(v or 0.0) for v in c['cur']]      # earlier profiles: generic where the model left them open; the current profile exactly as the model has it (an empty or negative profile may be what matters)
         a = dict(base); a['ops'] = list(c['history']) + [c['query']]
         for j, p in enumerate(olds): a['prof%d' % j] = p
         a['prof%d' % len(olds)] = cur
